@@ -231,7 +231,8 @@ func (p ProprietaryMACCommandPayload) MarshalBinary() ([]byte, error) {
 
 // UnmarshalBinary decodes the object from a slice of bytes.
 func (p *ProprietaryMACCommandPayload) UnmarshalBinary(data []byte) error {
-	p.Bytes = data
+	p.Bytes = make([]byte, len(data))
+	copy(p.Bytes, data)
 	return nil
 }
 
